@@ -8,7 +8,6 @@
 package main
 
 import (
-	"bufio"
 	"bytes"
 	"context"
 	"crypto/sha256"
@@ -20,150 +19,24 @@ import (
 	"os/exec"
 	"path/filepath"
 	"strings"
-	"sync/atomic"
 	"syscall"
 	"time"
 
 	_ "github.com/mattn/go-sqlite3"
 	psql "github.com/transparency-dev/witness/internal/persistence/sql"
+	"github.com/transparency-dev/witness/internal/verif/kit/crash"
 	"github.com/transparency-dev/witness/internal/verif/kit/ev"
 	"github.com/transparency-dev/witness/internal/verif/kit/gen"
 	"github.com/transparency-dev/witness/internal/verif/kit/refnote"
-	"github.com/transparency-dev/witness/internal/verif/kit/reftree"
 	"github.com/transparency-dev/witness/internal/verif/kit/wit"
 	"github.com/transparency-dev/witness/internal/witness"
 	"google.golang.org/grpc/codes"
 	"google.golang.org/grpc/status"
 )
 
-type upd struct {
-	ID      int
-	LogID   string
-	Old     uint64
-	CP      []byte
-	Proof   [][]byte
-	refused bool // must be refused whatever happens
-	log     *gen.Log
-}
-
-type script struct {
-	name string
-	ups  []upd
-}
-
-type world struct {
-	u    *gen.Universe
-	a, b *gen.Log
-	keys *wit.WitKeys
-	cfg  map[string]any
-}
-
-func newWorld(r *rand.Rand) *world {
-	u := gen.NewUniverse(r, gen.Opts{NLogs: 2, MaxSize: 40, Branches: 2, Unique: true})
-	for _, l := range u.Logs {
-		l.ReplaceBranch(1, &reftree.Tree{Seed: l.Branches[0].Seed, TagA: 1, TagB: 4, Fork: 2})
-	}
-	keys, _ := wit.NewWitKeys(r, []bool{false, true}, true)
-	w := &world{u: u, a: u.Logs[0], b: u.Logs[1], keys: keys}
-	var logs []map[string]string
-	for _, l := range u.Logs {
-		logs = append(logs, map[string]string{"ID": l.ID, "Origin": l.Origin, "Vkey": l.Key.Vkey()})
-	}
-	var sk []map[string]any
-	for i, k := range keys.Sign {
-		sk = append(sk, map[string]any{"Skey": k.Skey(), "CosigV1": keys.Keys[i].CosigV1})
-	}
-	w.cfg = map[string]any{"Logs": logs, "Skeys": sk}
-	return w
-}
-
-func (w *world) step(id int, l *gen.Log, old, size uint64) upd {
-	return upd{ID: id, LogID: l.ID, Old: old, CP: l.Honest(0, size), Proof: l.Branches[0].Consistency(old, size), log: l}
-}
-
-func (w *world) scripts() []script {
-	a, b := w.a, w.b
-	stale := w.step(2, a, 3, 9)
-	stale.refused = true
-	return []script{
-		{"first_use", []upd{w.step(1, a, 0, 5)}},
-		{"growth", []upd{w.step(1, a, 0, 5), w.step(2, a, 5, 9)}},
-		{"refresh", []upd{w.step(1, a, 0, 5), w.step(2, a, 5, 5)}},
-		{"growth_after_refused", []upd{w.step(1, a, 0, 5), stale, w.step(3, a, 5, 9)}},
-		{"two_logs", []upd{w.step(1, b, 0, 4), w.step(2, a, 0, 5), w.step(3, b, 4, 8), w.step(4, a, 5, 9)}},
-	}
-}
-
-var runN atomic.Int64
-
-// child runs c06child on a script; wrap prefixes the command (strace).
-func (w *world) child(dir string, db string, ups []upd, killAt int, phase string, opsLog bool, wrap []string) (ackPath string, opsPath string, err error, out []byte) {
-	n := runN.Add(1)
-	ackPath = filepath.Join(dir, fmt.Sprintf("ack-%d", n))
-	sp := filepath.Join(dir, fmt.Sprintf("script-%d.json", n))
-	cfg := map[string]any{"DB": db, "Ack": ackPath, "Logs": w.cfg["Logs"], "Skeys": w.cfg["Skeys"], "KillAt": killAt, "KillPhase": phase}
-	if opsLog {
-		opsPath = filepath.Join(dir, fmt.Sprintf("ops-%d.json", n))
-		cfg["OpsLog"] = opsPath
-	}
-	var us []map[string]any
-	for _, u := range ups {
-		us = append(us, map[string]any{"ID": u.ID, "LogID": u.LogID, "Old": u.Old, "CP": u.CP, "Proof": u.Proof})
-	}
-	cfg["Updates"] = us
-	b, _ := json.Marshal(cfg)
-	_ = os.WriteFile(sp, b, 0o644)
-	args := append(append([]string{}, wrap...), os.Getenv("VERIF_BIN_C06CHILD"), sp)
-	ctx, cancel := context.WithTimeout(context.Background(), 60*time.Second)
-	defer cancel()
-	cmd := exec.CommandContext(ctx, args[0], args[1:]...)
-	cmd.Env = append(os.Environ(), "VERIF_KILL_AT=")
-	out, err = cmd.CombinedOutput()
-	if ctx.Err() != nil {
-		err = fmt.Errorf("watchdog")
-	}
-	return
-}
-
-type acks struct {
-	ready, done bool
-	ack         map[int]string // id -> sha256 hex of returned bytes
-	nak         map[int]string
-	order       []int
-}
-
-func readAcks(p string) acks {
-	a := acks{ack: map[int]string{}, nak: map[int]string{}}
-	f, err := os.Open(p)
-	if err != nil {
-		return a
-	}
-	defer f.Close()
-	sc := bufio.NewScanner(f)
-	for sc.Scan() {
-		ln := sc.Text()
-		var id int
-		var h string
-		switch {
-		case ln == "READY":
-			a.ready = true
-		case ln == "DONE":
-			a.done = true
-		case strings.HasPrefix(ln, "ACK "):
-			fmt.Sscanf(ln, "ACK %d %s", &id, &h)
-			a.ack[id] = h
-			a.order = append(a.order, id)
-		case strings.HasPrefix(ln, "NAK "):
-			fmt.Sscanf(ln, "NAK %d", &id)
-			a.nak[id] = ln
-		}
-	}
-	return a
-}
-
 // verify reopens the store with the plain production driver and applies the property's clauses.
 // pre: sha256 (hex) of the checkpoint each log held before the script ("" = none).
-func (w *world) verify(run *ev.Run, unit int64, db string, ups []upd, a acks, pre map[string]string, what string, detail map[string]any) {
+func verify(w *crash.World, run *ev.Run, unit int64, db string, ups []crash.Upd, a crash.Acks, pre map[string]string, what string, detail map[string]any) {
 	h, err := sql.Open("sqlite3", db)
 	if err != nil {
 		run.Inconclusive(err.Error())
@@ -171,8 +44,8 @@ func (w *world) verify(run *ev.Run, unit int64, db string, ups []upd, a acks, pr
 	}
 	defer h.Close()
 	h.SetMaxOpenConns(1)
-	kl, _ := wit.KnownLogs(w.u)
-	wt, err := witness.New(witness.Opts{Persistence: psql.NewPersistence(h), Signers: w.keys.Signers, KnownLogs: kl})
+	kl, _ := wit.KnownLogs(w.U)
+	wt, err := witness.New(witness.Opts{Persistence: psql.NewPersistence(h), Signers: w.Keys.Signers, KnownLogs: kl})
 	if err != nil {
 		run.Violate("store_unusable_after_kill;"+what, "the store cannot be reopened after the kill: "+err.Error(), unit, detail)
 		return
@@ -182,21 +55,21 @@ func (w *world) verify(run *ev.Run, unit int64, db string, ups []upd, a acks, pr
 	for k, v := range pre {
 		last[k] = v
 	}
-	var inflight *upd
+	var inflight *crash.Upd
 	for i := range ups {
 		u := &ups[i]
-		if hsh, ok := a.ack[u.ID]; ok {
+		if hsh, ok := a.Ack[u.ID]; ok {
 			last[u.LogID] = hsh
 			continue
 		}
-		if _, ok := a.nak[u.ID]; ok {
+		if _, ok := a.Nak[u.ID]; ok {
 			continue
 		}
-		if inflight == nil && !a.done {
+		if inflight == nil && !a.Done {
 			inflight = u
 		}
 	}
-	for _, l := range w.u.Logs {
+	for _, l := range w.U.Logs {
 		stored, err := wt.GetCheckpoint(l.ID)
 		if err != nil && status.Code(err) != codes.NotFound {
 			run.Violate("read_fails_after_kill;"+what, "reading the latest checkpoint after reopen fails: "+err.Error(), unit, detail)
@@ -212,8 +85,8 @@ func (w *world) verify(run *ev.Run, unit int64, db string, ups []upd, a acks, pr
 		}
 		okOld := sum == last[l.ID]
 		okNew := false
-		if inflight != nil && inflight.LogID == l.ID && !inflight.refused && stored != nil {
-			okNew = w.cosignedFormOf(l, stored, inflight.CP)
+		if inflight != nil && inflight.LogID == l.ID && !inflight.Refused && stored != nil {
+			okNew = w.CosignedFormOf(l, stored, inflight.CP)
 		}
 		switch {
 		case okOld:
@@ -228,7 +101,7 @@ func (w *world) verify(run *ev.Run, unit int64, db string, ups []upd, a acks, pr
 			run.Violate("state_neither_old_nor_new;"+what, "after the kill the stored checkpoint "+which, unit, d2)
 			continue
 		}
-		if stored != nil && !w.complete(l, stored) {
+		if stored != nil && !w.Complete(l, stored) {
 			run.Violate("stored_checkpoint_incomplete;"+what, "the stored checkpoint is not a complete validly cosigned note", unit, d2)
 			continue
 		}
@@ -248,38 +121,8 @@ func (w *world) verify(run *ev.Run, unit int64, db string, ups []upd, a acks, pr
 	}
 }
 
-func (w *world) complete(l *gen.Log, raw []byte) bool {
-	n, err := refnote.Parse(raw)
-	if err != nil {
-		return false
-	}
-	if a, _ := l.Judge(raw); !a {
-		return false
-	}
-	for _, k := range w.keys.Keys {
-		v, _, lines := k.ValidSigs(n)
-		if len(v) != 1 || lines != 1 {
-			return false
-		}
-	}
-	return true
-}
-
-func (w *world) cosignedFormOf(l *gen.Log, stored, submitted []byte) bool {
-	a, b := refnoteText(stored), refnoteText(submitted)
-	return a != "" && a == b && w.complete(l, stored)
-}
-
-func refnoteText(raw []byte) string {
-	n, err := refnote.Parse(raw)
-	if err != nil {
-		return ""
-	}
-	return n.Text
-}
-
 type point struct {
-	sc        script
+	sc        crash.Script
 	populated bool
 	idx       int
 	phase     string
@@ -299,10 +142,10 @@ func main() {
 	run.Floor("state_old", 100)
 	run.Exhaustive(true)
 	dir := run.Scratch()
-	w := newWorld(run.Rand("world", 0))
-	scripts := w.scripts()
-	setup := []upd{w.step(100, w.b, 0, 3)} // populates the table with another log's row
-	if strings.HasPrefix(scripts[4].name, "two_logs") {
+	w := crash.NewWorld(run.Rand("world", 0))
+	scripts := w.Scripts()
+	setup := []crash.Upd{w.Step(100, w.B, 0, 3)} // populates the table with another log's row
+	if strings.HasPrefix(scripts[4].Name, "two_logs") {
 		// two_logs starts log b itself; in the populated state it continues from size 3
 	}
 
@@ -310,17 +153,17 @@ func main() {
 	var points []point
 	for _, sc := range scripts {
 		for _, pop := range []bool{false, true} {
-			if pop && sc.name == "two_logs" {
+			if pop && sc.Name == "two_logs" {
 				continue
 			}
-			db := filepath.Join(dir, fmt.Sprintf("dry-%s-%v.db", sc.name, pop))
+			db := filepath.Join(dir, fmt.Sprintf("dry-%s-%v.db", sc.Name, pop))
 			if pop {
-				if _, _, err, out := w.child(dir, db, setup, -1, "", false, nil); err != nil {
+				if _, _, err, out := w.Child(dir, db, setup, -1, "", false, nil); err != nil {
 					run.Inconclusive("setup child failed: " + err.Error() + string(out))
 					return
 				}
 			}
-			_, opsPath, err, out := w.child(dir, db, sc.ups, -1, "", true, nil)
+			_, opsPath, err, out := w.Child(dir, db, sc.Ups, -1, "", true, nil)
 			if err != nil {
 				run.Inconclusive("dry run failed: " + err.Error() + string(out))
 				return
@@ -333,7 +176,7 @@ func main() {
 					points = append(points, point{sc, pop, i, ph, op})
 				}
 			}
-			run.Sample(map[string]any{"script": sc.name, "populated": pop, "driver_operations": ops})
+			run.Sample(map[string]any{"script": sc.Name, "populated": pop, "driver_operations": ops})
 		}
 	}
 	run.Units("driver", len(points), 0, func(unit int64, _ *rand.Rand) {
@@ -341,17 +184,17 @@ func main() {
 		db := filepath.Join(dir, fmt.Sprintf("d-%d.db", unit))
 		pre := map[string]string{}
 		if p.populated {
-			ackp, _, err, out := w.child(dir, db, setup, -1, "", false, nil)
+			ackp, _, err, out := w.Child(dir, db, setup, -1, "", false, nil)
 			if err != nil {
 				run.Inconclusive("setup child failed: " + err.Error() + string(out))
 				return
 			}
-			pre[w.b.ID] = readAcks(ackp).ack[100]
+			pre[w.B.ID] = crash.ReadAcks(ackp).Ack[100]
 		}
-		ackp, _, err, out := w.child(dir, db, p.sc.ups, p.idx, p.phase, false, nil)
-		a := readAcks(ackp)
-		what := fmt.Sprintf("%s/populated=%v", p.sc.name, p.populated)
-		detail := map[string]any{"script": p.sc.name, "populated": p.populated, "kill_at_op": p.idx, "op": p.op, "phase": p.phase, "acks": a.order, "child_exit": fmt.Sprint(err), "child_out": string(out)}
+		ackp, _, err, out := w.Child(dir, db, p.sc.Ups, p.idx, p.phase, false, nil)
+		a := crash.ReadAcks(ackp)
+		what := fmt.Sprintf("%s/populated=%v", p.sc.Name, p.populated)
+		detail := map[string]any{"script": p.sc.Name, "populated": p.populated, "kill_at_op": p.idx, "op": p.op, "phase": p.phase, "acks": a.Order, "child_exit": fmt.Sprint(err), "child_out": string(out)}
 		if ee, ok := err.(*exec.ExitError); !ok || !ee.Sys().(syscall.WaitStatus).Signaled() {
 			run.Inconclusive(fmt.Sprintf("child was not killed at %s@%d/%s: %v %s", p.op, p.idx, p.phase, err, out))
 			return
@@ -359,7 +202,7 @@ func main() {
 		run.Count("evaluations")
 		run.Count("driver_points")
 		run.Distinct("nontrivial", fmt.Sprintf("driver/%s/%s@%d/%s", what, p.op, p.idx, p.phase))
-		w.verify(run, unit, db, p.sc.ups, a, pre, what+";op="+p.op+"/"+p.phase, detail)
+		verify(w, run, unit, db, p.sc.Ups, a, pre, what+";op="+p.op+"/"+p.phase, detail)
 		os.Remove(db)
 		os.Remove(db + "-journal")
 	})
@@ -369,14 +212,14 @@ func main() {
 	_ = set
 	const inj = "pwrite64,fsync,fdatasync,unlink,unlinkat,ftruncate"
 	type spoint struct {
-		sc script
+		sc crash.Script
 		n  int
 	}
 	var sp []spoint
 	for _, sc := range scripts {
-		db := filepath.Join(dir, "sdry-"+sc.name+".db")
-		tr := filepath.Join(dir, "trace-"+sc.name)
-		_, _, err, out := w.child(dir, db, sc.ups, -1, "", false, []string{"strace", "-f", "-o", tr, "-e", "trace=" + inj})
+		db := filepath.Join(dir, "sdry-"+sc.Name+".db")
+		tr := filepath.Join(dir, "trace-"+sc.Name)
+		_, _, err, out := w.Child(dir, db, sc.Ups, -1, "", false, []string{"strace", "-f", "-o", tr, "-e", "trace=" + inj})
 		if err != nil {
 			run.Inconclusive("traced dry run failed: " + err.Error() + string(out))
 			return
@@ -403,14 +246,14 @@ func main() {
 		for n := 1; n <= k; n++ {
 			sp = append(sp, spoint{sc, n})
 		}
-		run.Extra("storage_syscalls:"+sc.name, k)
+		run.Extra("storage_syscalls:"+sc.Name, k)
 	}
 	run.Units("syscall", len(sp), 0, func(unit int64, _ *rand.Rand) {
 		p := sp[unit]
 		db := filepath.Join(dir, fmt.Sprintf("s-%d.db", unit))
 		tr := filepath.Join(dir, fmt.Sprintf("s-%d.trace", unit))
-		ackp, _, err, out := w.child(dir, db, p.sc.ups, -1, "", false, []string{"strace", "-f", "-o", tr, "-e", "trace=" + inj, "-e", fmt.Sprintf("inject=%s:signal=SIGKILL:when=%d", inj, p.n)})
-		a := readAcks(ackp)
+		ackp, _, err, out := w.Child(dir, db, p.sc.Ups, -1, "", false, []string{"strace", "-f", "-o", tr, "-e", "trace=" + inj, "-e", fmt.Sprintf("inject=%s:signal=SIGKILL:when=%d", inj, p.n)})
+		a := crash.ReadAcks(ackp)
 		tb, _ := os.ReadFile(tr)
 		lines := strings.Split(strings.TrimSpace(string(tb)), "\n")
 		lastCall := ""
@@ -424,8 +267,8 @@ func main() {
 			lastCall = lastCall[:100]
 		}
 		_, jerr := os.Stat(db + "-journal")
-		detail := map[string]any{"script": p.sc.name, "kill_at_syscall": p.n, "interrupted": lastCall, "hot_journal_left": jerr == nil, "acks": a.order, "child_exit": fmt.Sprint(err), "out": string(out)}
-		if a.done {
+		detail := map[string]any{"script": p.sc.Name, "kill_at_syscall": p.n, "interrupted": lastCall, "hot_journal_left": jerr == nil, "acks": a.Order, "child_exit": fmt.Sprint(err), "out": string(out)}
+		if a.Done {
 			// the N-th syscall was on another thread or not reached: nothing was killed
 			run.Count("syscall_points_not_reached")
 			return
@@ -435,11 +278,11 @@ func main() {
 		if jerr == nil {
 			run.Count("hot_journal_left")
 		}
-		run.Distinct("nontrivial", fmt.Sprintf("syscall/%s/%d", p.sc.name, p.n))
+		run.Distinct("nontrivial", fmt.Sprintf("syscall/%s/%d", p.sc.Name, p.n))
 		if unit%41 == 0 {
 			run.Sample(detail)
 		}
-		w.verify(run, unit, db, p.sc.ups, a, map[string]string{}, p.sc.name+";syscall", detail)
+		verify(w, run, unit, db, p.sc.Ups, a, map[string]string{}, p.sc.Name+";syscall", detail)
 		os.Remove(db)
 		os.Remove(db + "-journal")
 	})
@@ -448,10 +291,10 @@ func main() {
 	if run.Thorough() {
 		run.Exhaustive(false)
 		run.Units("random", 3000, 0, func(unit int64, r *rand.Rand) {
-			var ups []upd
+			var ups []crash.Upd
 			cur := map[*gen.Log]uint64{}
 			for i := 1; i <= 200; i++ {
-				l := w.u.Logs[r.IntN(2)]
+				l := w.U.Logs[r.IntN(2)]
 				nx := cur[l] + uint64(r.IntN(3))
 				if cur[l] == 0 {
 					nx = 1 + uint64(r.IntN(3))
@@ -459,14 +302,14 @@ func main() {
 				if nx > 38 {
 					nx = cur[l]
 				}
-				ups = append(ups, w.step(i, l, cur[l], nx))
+				ups = append(ups, w.Step(i, l, cur[l], nx))
 				cur[l] = nx
 			}
 			db := filepath.Join(dir, fmt.Sprintf("r-%d.db", unit))
-			n := runN.Add(1)
+			n := crash.RunN.Add(1)
 			ackp := filepath.Join(dir, fmt.Sprintf("ack-%d", n))
 			sp := filepath.Join(dir, fmt.Sprintf("script-%d.json", n))
-			cfg := map[string]any{"DB": db, "Ack": ackp, "Logs": w.cfg["Logs"], "Skeys": w.cfg["Skeys"], "KillAt": -1}
+			cfg := w.Config(db, ackp)
 			var us []map[string]any
 			for _, u := range ups {
 				us = append(us, map[string]any{"ID": u.ID, "LogID": u.LogID, "Old": u.Old, "CP": u.CP, "Proof": u.Proof})
@@ -482,7 +325,7 @@ func main() {
 			want := r.IntN(150)
 			spin := r.IntN(3000)
 			for i := 0; i < 20000; i++ {
-				if len(readAcks(ackp).order) >= want {
+				if len(crash.ReadAcks(ackp).Order) >= want {
 					break
 				}
 				time.Sleep(200 * time.Microsecond)
@@ -492,11 +335,11 @@ func main() {
 			}
 			_ = cmd.Process.Kill()
 			_ = cmd.Wait()
-			a := readAcks(ackp)
+			a := crash.ReadAcks(ackp)
 			run.Count("evaluations")
 			run.Count("random_instant_kills")
-			run.Distinct("nontrivial", fmt.Sprintf("random/%d", len(a.order)))
-			w.verify(run, unit, db, ups, a, map[string]string{}, "random_instant", map[string]any{"acks_before_kill": len(a.order)})
+			run.Distinct("nontrivial", fmt.Sprintf("random/%d", len(a.Order)))
+			verify(w, run, unit, db, ups, a, map[string]string{}, "random_instant", map[string]any{"acks_before_kill": len(a.Order)})
 			os.Remove(db)
 			os.Remove(db + "-journal")
 			os.Remove(sp)
